@@ -154,7 +154,7 @@ def content_family(chk):
     stand before / after / between files with findings and sub-directories, in every listing order of the top directory"""
     import itertools
     names = {c: dict(dl.CATS[c]['patterns']) for c in dl.CATS}
-    kinds = list(dl.SPECIAL_CONTENTS) if not chk.quick else ['blank', 'comment', 'empty']
+    kinds = list(dl.SPECIAL_CONTENTS) if not chk.quick else ['blank', 'comment', 'empty', 'free_only', 'pragma_only']
     trees = []
     for k in kinds:
         trees.append([('file', 'W.sol', 'w', k), ('file', 'A.sol', 'a')])
